@@ -490,7 +490,35 @@ class ApplyMatcher(object):
                 while len(a['pairs']) * 2 <= len(a['l']) + len(a['r']) and len(a['pairs']) < len(a['l']) * len(a['r']):
                     cand = [(i, j) for i in range(len(a['l'])) for j in range(len(a['r'])) if (i, j) not in a['pairs']]
                     a['pairs'].append(cand[0])
+            # C15: an invalid key column (duplicate or missing key) is rejected whatever the candidate set holds,
+            # an empty one included
+            if rng.random() < 0.2 and not a.get('selfjoin'):
+                a['badkey'] = rng.choice(['l_dup', 'r_dup', 'l_nan', 'r_nan'])
+                if rng.random() < 0.5:
+                    a['pairs'] = []
             yield a
+
+    def check_badkey(self, a, op, tokenized):
+        import numpy as np
+        from py_stringmatching import WhitespaceTokenizer
+        from py_stringsimjoin.matcher.apply_matcher import apply_matcher
+        lt, rt = _frames(a)
+        cs = _candset(a)
+        side, kind = a['badkey'].split('_')
+        tbl, key = (lt, 'id') if side == 'l' else (rt, 'rid')
+        if kind == 'dup' and len(tbl) < 2:
+            return None
+        col = tbl[key].tolist()
+        col[-1] = col[0] if kind == 'dup' else np.nan
+        tbl[key] = col
+        tok = WhitespaceTokenizer(return_set=True) if tokenized else None
+        try:
+            apply_matcher(cs, 'l_id', 'r_rid', lt, rt, 'id', 'rid', 'v', 'w', tok, (lambda x, y: 1.0), a['t'], op,
+                          a['allow_missing'], None, None, 'l_', 'r_', a['score'], a['n_jobs'], False)
+        except AssertionError:
+            return None
+        return 'apply_matcher accepted a %s table whose key column has a %s key (candidate set of %d rows)' % (
+            'left' if side == 'l' else 'right', 'duplicate' if kind == 'dup' else 'missing', len(cs))
 
     def check(self, case, a):
         from py_stringmatching import WhitespaceTokenizer
@@ -500,6 +528,8 @@ class ApplyMatcher(object):
         tokenized = (m.group(2) not in ('no-tokenizer', 'none')) if m else a['tokenized']
         if a.get('selfjoin'):
             return self.check_selfjoin(a, op, tokenized)
+        if a.get('badkey'):
+            return self.check_badkey(a, op, tokenized)
         lt, rt = _frames(a)
         cs = _candset(a)
         lt0, rt0, cs0 = lt.copy(deep=True), rt.copy(deep=True), cs.copy(deep=True)
